@@ -163,6 +163,9 @@ func (s *Linear) Nice(o TickOptions) {
 	}
 
 	firstN, lastN, spacing := s.spacingAtLevel(level, true)
-	s.Min = firstN * spacing
-	s.Max = lastN * spacing
+	min, max := firstN*spacing, lastN*spacing
+	if math.IsNaN(min) || math.IsInf(min, 0) || math.IsNaN(max) || math.IsInf(max, 0) || min > s.Min || max < s.Max {
+		return
+	}
+	s.Min, s.Max = min, max
 }
